@@ -38,9 +38,10 @@ type c15Config struct {
 	Value    string `json:"panic_value"`  // string | error | runtime | struct | abort
 	Style    string `json:"registration"` // use | route | group
 	Env      string `json:"env"`
-	BuiltIn  string `json:"env_while_building,omitempty"`                       // when set, the stack is built in this environment and Env is set afterwards
-	CustomRH bool   `json:"custom_return_handler_mapped,omitempty"`             // the application maps a ReturnHandler of its own (it renders whatever handlers return as a 200 envelope); Recovery's 500 is not a handler's return value
-	Reconf   bool   `json:"middleware_replaced_after_first_requests,omitempty"` // the application first runs with as many do-nothing middleware, serves both routes, and only then gets the real stack through Handlers()
+	BuiltIn  string `json:"env_while_building,omitempty"`                                // when set, the stack is built in this environment and Env is set afterwards
+	Sibling  bool   `json:"middleware_list_shared_with_a_sibling_application,omitempty"` // the handlers before Recovery come from one slice with spare capacity that is handed to Handlers() of this application and, afterwards, of a second one that then adds middleware of its own
+	CustomRH bool   `json:"custom_return_handler_mapped,omitempty"`                      // the application maps a ReturnHandler of its own (it renders whatever handlers return as a 200 envelope); Recovery's 500 is not a handler's return value
+	Reconf   bool   `json:"middleware_replaced_after_first_requests,omitempty"`          // the application first runs with as many do-nothing middleware, serves both routes, and only then gets the real stack through Handlers()
 }
 
 func (c c15Config) marker() string {
@@ -163,6 +164,16 @@ func c15Build(c c15Config) *c15World {
 			for range hs {
 				w.f.Use(func() {})
 			}
+		} else if c.Sibling {
+			common := make([]flamego.Handler, c.R, c.R+4)
+			copy(common, hs[:c.R])
+			w.f.Handlers(common...)
+			w.f.Use(hs[c.R:]...)
+			sib := flamego.NewWithLogger(io.Discard)
+			sib.Handlers(common...)
+			sib.Use(func() {}, func() {}, func() {})
+			common = append(common, func() {}, func() {})
+			_ = common
 		} else {
 			w.f.Use(hs...)
 		}
@@ -375,6 +386,9 @@ func c15Configs(thorough bool) []c15Config {
 								out = append(out, c15Config{N: n, R: r, P: p, Phase: ph, Between: bm, Value: v, Style: st})
 								if st == "use" && (v == "string" || v == "struct") {
 									out = append(out, c15Config{N: n, R: r, P: p, Phase: ph, Between: bm, Value: v, Style: st, Reconf: true})
+								}
+								if st == "use" && r >= 1 && (v == "string" || v == "struct") && (thorough || n <= 3) {
+									out = append(out, c15Config{N: n, R: r, P: p, Phase: ph, Between: bm, Value: v, Style: st, Sibling: true})
 								}
 								if (st == "use" || st == "route") && (v == "string" || v == "error") && (thorough || n <= 3) {
 									out = append(out, c15Config{N: n, R: r, P: p, Phase: ph, Between: bm, Value: v, Style: st, CustomRH: true})
